@@ -2288,6 +2288,14 @@ func checkOnce(c caseT, limit time.Duration) (fw.Outcome, *fw.Violation) {
 	}
 	chain = append(chain, "COMMIT;")
 	if r := e.exec("COMMIT;"); r.Err != nil {
+		if strings.Contains(r.Err.Error(), "data encode error") {
+			// the table the successful statements of the case built cannot be spelled in its format (FORMAT set to FIXED and
+			// an added column that is empty in every record has no width): csvq refuses the commit for a reason that has
+			// nothing to do with the failed statement (that refusal is C02's subject) - out of this check's domain
+			class("commit_refused_unspellable_table")
+			o.Discard = true
+			return o, nil
+		}
 		return o, fw.V(sigBase+"_then_commit_fails", "COMMIT after the failed statement: %v%s", r.Err, e.tail())
 	}
 	// a table whose attributes a SET statement changed no longer reads back by its file name; those
